@@ -14,13 +14,34 @@ Facts about jsonrpclib/threadpool.py — EventData / FutureResult (C16).
                         `callback is not None`; "truthy" for `if callback:` -- a falsy callable would be skipped)
   waitTimeoutForwarded  FutureResult.result passes its `timeout` parameter unchanged to `_done_event.wait`, and
                         EventData.wait passes its own unchanged to `self.__event.wait` (no `timeout or None`)
+
+The methods are read through tools/extractors/normalise.py (helpers the model has no step for are inlined where they are
+called, acquire/try/finally-release is a `with`, aliases of `_done_event` / the lock are resolved), and the guards
+(waitGuard, notifyGuard) are computed from the conditions that dominate a statement - enclosing ifs, guard clauses with
+an early return, the operands of a short-circuit test evaluated before it - not from the shape of one `if`.
 """
 import ast
+import importlib.util
+import os
 
 from __main__ import Fact, lean_str, lean_list, lean_bool
 
+
+def _load_normaliser():
+    path = os.path.join(os.path.dirname(os.path.abspath(__file__)), "normalise.py")
+    spec = importlib.util.spec_from_file_location("extractors_normalise_shared", path)
+    mod = importlib.util.module_from_spec(spec)
+    spec.loader.exec_module(mod)
+    return mod
+
+
+N = _load_normaliser()
+
 PROPERTIES = ["C16"]
 PROTECTED = ("__callback", "__extra", "__completed")
+# the methods the model of the future has steps for (never inlined)
+FUTURE_ANCHORS = ("__init__", "__notify", "set_callback", "execute", "done", "result")
+EVENT_ANCHORS = ("__init__", "data", "exception", "clear", "is_set", "set", "raise_exception", "wait")
 
 
 def _self_attr(node):
@@ -128,11 +149,16 @@ def _event_order(fn):
                 and st.value.func.attr == "set" and _self_attr(st.value.func.value) == "__event":
             seen_set = True
             continue
-        if isinstance(st, ast.Assign) and len(st.targets) == 1:
-            ta = _self_attr(st.targets[0])
-            lab = {"__data": "sData", "__exception": "sExc"}.get(ta)
-            if lab:
-                (after if seen_set else before).append(lab)
+        if isinstance(st, ast.Assign):
+            targets = list(st.targets)
+            while targets:
+                t = targets.pop(0)
+                if isinstance(t, (ast.Tuple, ast.List)):
+                    targets = list(t.elts) + targets
+                    continue
+                lab = {"__data": "sData", "__exception": "sExc"}.get(_self_attr(t))
+                if lab:
+                    (after if seen_set else before).append(lab)
     if not seen_set:
         return None
     return sorted(before), sorted(after)
@@ -146,15 +172,16 @@ def _notify_contains(fn):
         if isinstance(n, ast.Try):
             called = any(isinstance(c, ast.Call) and isinstance(c.func, ast.Name) and c.func.id == params[0]
                          for s in n.body for c in ast.walk(s))
-            if not called or len(n.handlers) != 1:
+            if not called or not n.handlers:
                 continue
-            h = n.handlers[0]
-            cls = h.type.id if isinstance(h.type, ast.Name) else ("" if h.type is None else "?")
-            reraises = any(isinstance(x, ast.Raise) for s in h.body for x in ast.walk(s))
-            logs = any(isinstance(c, ast.Call) and isinstance(c.func, ast.Attribute) and c.func.attr == "exception"
-                       and isinstance(c.func.value, ast.Attribute) and c.func.value.attr == "_logger"
-                       for s in h.body for c in ast.walk(s))
-            return cls, not reraises, logs
+            classes, reraises, logs = set(), False, True
+            for h in n.handlers:
+                classes |= (N.handler_classes(h) if h.type is not None else {""})
+                reraises = reraises or any(isinstance(x, ast.Raise) for s in h.body for x in ast.walk(s))
+                logs = logs and any(isinstance(c, ast.Call) and isinstance(c.func, ast.Attribute) and c.func.attr == "exception"
+                                    and isinstance(c.func.value, ast.Attribute) and c.func.value.attr == "_logger"
+                                    for s in h.body for c in ast.walk(s))
+            return "|".join(sorted(classes)), not reraises, logs
     return None
 
 
@@ -196,28 +223,35 @@ def _execute_shape(fn):
 
 
 def _wait_guard(fn):
+    """
+    `r = self.__event.wait(...)`: every read of `self.__exception` (in a test, a return, a raise) happens where `r` is
+    known to be true, every return hands back `r`, and one of them is reachable when `r` is false (the time-out path).
+    """
+    items = N.walk(fn, ())
     var = None
-    for st in fn.body:
-        if isinstance(st, ast.Assign) and isinstance(st.targets[0], ast.Name) and isinstance(st.value, ast.Call) \
-                and isinstance(st.value.func, ast.Attribute) and st.value.func.attr == "wait":
+    for it in items:
+        st = it.node
+        if it.kind == "stmt" and isinstance(st, ast.Assign) and len(st.targets) == 1 and isinstance(st.targets[0], ast.Name) \
+                and isinstance(st.value, ast.Call) and isinstance(st.value.func, ast.Attribute) and st.value.func.attr == "wait":
             var = st.targets[0].id
-        if isinstance(st, ast.If) and any(_self_attr(n) == "__exception" for n in ast.walk(st.test)):
-            t = st.test
-            guarded = (isinstance(t, ast.BoolOp) and isinstance(t.op, ast.Or) and isinstance(t.values[0], ast.UnaryOp)
-                       and isinstance(t.values[0].op, ast.Not) and isinstance(t.values[0].operand, ast.Name)
-                       and t.values[0].operand.id == var)
-            returns_var = any(isinstance(s, ast.Return) and isinstance(s.value, ast.Name) and s.value.id == var
-                              for s in st.body)
-            return bool(guarded and returns_var)
-    return None
+    reads = [it for it in items if any(_self_attr(n) == "__exception" and isinstance(n.ctx, ast.Load)
+                                       for n in ast.walk(it.node))]
+    if var is None or not reads:
+        return None
+    guarded = all(var in it.keys() for it in reads)
+    returns = [it for it in items if it.kind == "stmt" and isinstance(it.node, ast.Return)]
+    returns_var = bool(returns) and all(isinstance(r.node.value, ast.Name) and r.node.value.id == var for r in returns) \
+        and any(var not in r.keys() for r in returns)
+    return bool(guarded and returns_var)
 
 
 def _calls_param(node, param):
     return any(isinstance(c, ast.Call) and isinstance(c.func, ast.Name) and c.func.id == param for c in ast.walk(node))
 
 
-def _guard_shape(test, param):
-    if isinstance(test, ast.Compare) and len(test.ops) == 1 and isinstance(test.left, ast.Name) \
+def _guard_shape(lit, param):
+    test, pol = lit
+    if pol and isinstance(test, ast.Compare) and len(test.ops) == 1 and isinstance(test.left, ast.Name) \
             and test.left.id == param and isinstance(test.comparators[0], ast.Constant) \
             and test.comparators[0].value is None:
         op = test.ops[0]
@@ -225,39 +259,30 @@ def _guard_shape(test, param):
             return "isNotNone"
         if isinstance(op, ast.NotEq):
             return "neNone"
-    if isinstance(test, ast.Name) and test.id == param:
+    if pol and isinstance(test, ast.Name) and test.id == param:
         return "truthy"
-    try:
-        return "other:" + ast.unparse(test)[:50]
-    except Exception:  # pragma: no cover
-        return "other"
+    return "other:" + N.lit_key(lit)[:50]
 
 
 def _notify_guard(fn):
-    """Shape of the innermost `if` whose body contains the call of the callback; "unguarded" when there is none."""
+    """What is known whenever the callback is called: "unguarded" (nothing), the shape of the single literal
+    (`callback is not None` whether written as an enclosing if or as `if callback is None: return`), or "other:..."."""
     params = [a.arg for a in fn.args.args if a.arg != "self"]
     if not params or not _calls_param(fn, params[0]):
         return None
     param = params[0]
-
-    def search(body, guard):
-        for st in body:
-            if isinstance(st, ast.If):
-                if any(_calls_param(x, param) for x in st.body):
-                    return search(st.body, _guard_shape(st.test, param))
-                if any(_calls_param(x, param) for x in st.orelse):
-                    return "other:else-branch"
-            elif _calls_param(st, param):
-                for field in ("body", "orelse", "finalbody"):
-                    sub = getattr(st, field, None)
-                    if isinstance(sub, list) and any(_calls_param(x, param) for x in sub):
-                        return search(sub, guard)
-                for h in getattr(st, "handlers", []) or []:
-                    if any(_calls_param(x, param) for x in h.body):
-                        return search(h.body, guard)
-                return guard
-        return guard
-    return search(fn.body, "unguarded")
+    shapes = set()
+    for it in N.walk(fn, ()):
+        if not _calls_param(it.node, param):
+            continue
+        lits = [N.positive(c, ordering=False) for c in it.conds]
+        if not lits:
+            shapes.add("unguarded")
+        elif len(lits) == 1:
+            shapes.add(_guard_shape(lits[0], param))
+        else:
+            shapes.add(("other:" + " and ".join(N.lit_key(c) for c in lits))[:56])
+    return shapes.pop() if len(shapes) == 1 else "other:several-call-sites"
 
 
 def _forwards_timeout(fn, receiver):
@@ -280,13 +305,17 @@ def _str_list(xs):
 
 def facts(src):
     out = []
-    setcb = src.func("threadpool", "FutureResult.set_callback")
-    execute = src.func("threadpool", "FutureResult.execute")
-    notify = src.func("threadpool", "FutureResult.__notify")
-    ev_set = src.func("threadpool", "EventData.set")
-    ev_raise = src.func("threadpool", "EventData.raise_exception")
-    ev_wait = src.func("threadpool", "EventData.wait")
-    fut_result = src.func("threadpool", "FutureResult.result")
+    mod = src.module("threadpool")
+    fcls, ecls = src.klass("threadpool", "FutureResult"), src.klass("threadpool", "EventData")
+    fut = N.normalised_methods(fcls, FUTURE_ANCHORS, module=mod)
+    evt = N.normalised_methods(ecls, EVENT_ANCHORS, module=mod)
+    setcb = fut.get("set_callback")
+    execute = fut.get("execute")
+    notify = fut.get("__notify")
+    ev_set = evt.get("set")
+    ev_raise = evt.get("raise_exception")
+    ev_wait = evt.get("wait")
+    fut_result = fut.get("result")
     regions = None
     if setcb is not None and execute is not None:
         t = _find_try(execute)
